@@ -38,7 +38,7 @@ for p in props:
         na.append({'property_id': p['id'], 'reason': 'check not built yet (work in progress); applicable to runtime monitoring per DESIGN.md'})
 m = {
     'version': 1,
-    'setup_cmd': '/venv/bin/pip install -q --no-index --find-links /opt/veriftools/wheels --target /verif/.deps jsonschema >/dev/null 2>&1 || true',
+    'setup_cmd': '(/venv/bin/pip install -q --no-index --find-links /opt/veriftools/wheels --target /verif/.deps jsonschema >/dev/null 2>&1 || true); (cd /verif && PYTHONPATH=/verif /venv/bin/python -m ttmon.cppbuild plain >/dev/null 2>&1 || true) & (cd /verif && PYTHONPATH=/verif /venv/bin/python -m ttmon.cppbuild asan >/dev/null 2>&1 || true) & wait',
     'hooks': {'guard': 'TORCHTT_VERIF', 'enable': 'no source hooks: monitors are attached from outside by monkeypatching torchtt.TT.__init__ and sys.monitoring; the guard name is reserved and unused',
               'baseline_off_cmd': 'cd /repo && /venv/bin/python -m pytest -ra -q -p no:cacheprovider --timeout=900 --continue-on-collection-errors',
               'source_commits': [], 'add_only': True},
